@@ -123,7 +123,7 @@ FlushBeginD(id) ==
                    ELSE IF NeedsUpdate(EntryOf(g.gk, i), F, R, SR[i], g.due)
                           THEN [pc |-> "retry", n |-> 0, next |-> now]
                           ELSE [pc |-> "done", n |-> 0, next |-> 0]]
-     IN /\ FlushBegin(id, g.gk, fr)
+     IN /\ FlushBegin(id, g.gk, fr, now)
         /\ grp' = [grp EXCEPT ![id] = [g EXCEPT !.st = "flushing", !.tick = g.due, !.due = now + GI,
                                                  !.dl = now + Max2(GI, MinTimeout), !.frozen = fr, !.pl = pl, !.pc = pcs]]
   /\ UNCHANGED <<gmap, nfl, ids, nposts>>
